@@ -3,11 +3,10 @@ From Coq Require Import List ZArith NArith Bool.
 From OgRek Require Import Base Value PyEq Dict PyEqFacts DictFacts.
 Import ListNotations.
 
-(* Scope of these theorems: keys of the integer fragment (nf_key: every Go integer type,
-   *big.Int, bool, string / Bytes / ByteString, Tuples, None, Class, Call, Ref - i.e. the
-   10-key colliding alphabet of the property without 1.0).  Float / complex keys are covered
-   by the correspondence run only (C07 note).  The chooser ch stands for gomap's bucket and
-   slot order: every theorem holds for all of them. *)
+(* Scope of these theorems: every hashable key (nf_key: bool, every Go integer type, *big.Int,
+   float64 / float32, complex, string / Bytes / ByteString, Tuples, None, Class, Call, Ref - the
+   whole 10-key colliding alphabet of the property, 1.0 included).  The chooser ch stands for
+   gomap's bucket and slot order: every theorem holds for all of them. *)
 
 (* After any history, the Dict holds exactly the reference dictionary's entries: Set and Del
    first remove every entry whose key equals their argument; Len = number of entries; Iter
